@@ -145,6 +145,9 @@ def render(a):
             else:
                 parts.append(arg[1] + "=" + arg[4] + render(arg[3]) + arg[5])
         return "{{" + "|".join(parts) + "}}"
+    if k == "CN":
+        # ("CN", prefix, inner, name, args): call whose NAME is computed by a nested parser function
+        return render(("C", a[1] + render(a[2]), a[3], a[4]))
     if k == "IF":
         return "{{#if:" + "|".join(render(x) for x in a[1:]) + "}}"
     if k == "EQ":
@@ -175,6 +178,8 @@ def size(a):
         return 1 + sum(size(x[1] if x[0] == "pos" else x[3]) for x in a[3])
     if k in ("IF", "EQ"):
         return 1 + sum(size(x) for x in a[1:])
+    if k == "CN":
+        return 2 + size(("C", "", "", a[4]))
     if k == "SW":
         return 1 + size(a[1]) + sum(size(v) for c, v in a[2])
     if k in ("NOINC", "ONLYINC", "INCONLY"):
@@ -227,6 +232,11 @@ def shrinks(a):
                     yield ("C", a[1], a[2], args[:i] + [("named", arg[2], arg[2], arg[3], "", "")] + args[i + 1:])
                 for y in shrinks(arg[3]):
                     yield ("C", a[1], a[2], args[:i] + [("named", arg[1], arg[2], y, arg[4], arg[5])] + args[i + 1:])
+    elif k == "CN":
+        yield ("C", a[3], a[3], a[4])
+        for y in shrinks(("C", a[3], a[3], a[4])):
+            if y[0] == "C":
+                yield ("CN", a[1], a[2], a[3], y[3])
     elif k in ("IF", "EQ"):
         for x in a[1:]:
             yield x
@@ -273,6 +283,9 @@ def fromjson(a):
                 else:
                     args.append(("named", x[1], x[2], fromjson(x[3]), x[4], x[5]))
             return ("C", a[1], a[2], args)
+        if k == "CN":
+            c = fromjson(["C", "", a[3], a[4]])
+            return ("CN", a[1], fromjson(a[2]), a[3], c[3])
         if k in ("IF", "EQ"):
             return (k,) + tuple(fromjson(x) for x in a[1:])
         if k == "SW":
